@@ -351,3 +351,88 @@ def enumerate_small(maxnodes: int = 3) -> typing.Iterator[dict]:
                 if not leaves:
                     continue
                 yield {'nodes': [dict(m) for m in nodes], 'edges': wiring, 'trainers': [], 'tail': leaves[-1], 'assets': None}
+
+
+# ------------------------------------------------------------------------------------------------ generic evaluator
+def segment_members(segment) -> list:
+    """Nodes of a segment: everything downstream of its head, not expanding beyond the tail except trainers."""
+    head, tail = segment[0], segment[1]
+    seen, order, stack = set(), [], [head]
+    while stack:
+        node = stack.pop()
+        if id(node) in seen:
+            continue
+        seen.add(id(node))
+        order.append(node)
+        for port in node.output:
+            for sub in port:
+                if node is tail and not (isinstance(sub.node, flow.Worker) and sub.node.trained):
+                    continue
+                stack.append(sub.node)
+    return order
+
+
+def evaluate_segment(segment, loaded=None, entry=None) -> dict:
+    """Direct evaluation of a segment by running the *actors themselves* on the node objects (no compiler involved).
+
+    loaded(node) -> state bytes for stateful nodes that have no trainer inside this segment (None/b'' = no state);
+    for trainers it provides the previous state (incremental training).  Returns
+    {'value': {id(node): result}, 'state': {gid: bytes}, 'nodes': [...], 'tail': result of the tail node}.
+    """
+    nodes = segment_members(segment)
+    byid = {id(n): n for n in nodes}
+    feeds: dict = {}
+    for node in nodes:
+        for index, port in enumerate(node.output):
+            for sub in port:
+                if id(sub.node) in byid:
+                    key = (id(sub.node), sub.port)
+                    if key in feeds:
+                        raise AssertionError('two publishers on one port')
+                    feeds[key] = (node, index)
+    values: dict = {}
+    states: dict = {}
+    active: set = set()
+
+    def port_value(pub, index):
+        result = node_value(pub)
+        return result[index] if pub.szout > 1 else result
+
+    def node_value(node):
+        if id(node) in values:
+            return values[id(node)]
+        if id(node) in active:
+            raise RecursionError('cyclic dataflow')
+        active.add(id(node))
+        actor = node.builder()
+        if node.trained:
+            previous = loaded(node) if loaded else None
+            if previous:
+                actor.set_state(previous)
+            actor.train(port_value(*feeds[(id(node), gport.Train())]), port_value(*feeds[(id(node), gport.Label())]))
+            result = actor.get_state()
+            states[node.gid] = result
+        else:
+            if node.stateful:
+                trained = [m for m in node.group if m.trained and id(m) in byid]
+                state = node_value(trained[0]) if trained else (loaded(node) if loaded else None)
+                if state:
+                    actor.set_state(state)
+            inputs = []
+            for i in range(node.szin):
+                if (id(node), gport.Apply(i)) in feeds:
+                    inputs.append(port_value(*feeds[(id(node), gport.Apply(i))]))
+                elif node is segment[0]:
+                    if entry is not None:
+                        inputs.append(entry)
+                else:
+                    raise LookupError(f'input {i} of {node} not fed inside the segment')
+            result = actor.apply(*inputs)
+        active.discard(id(node))
+        values[id(node)] = result
+        return result
+
+    for node in nodes:
+        if isinstance(node, flow.Worker):
+            node_value(node)
+    return {'value': values, 'state': states, 'nodes': nodes, 'tail': values.get(id(segment[1]))}
